@@ -335,5 +335,137 @@ theorem carry_inv (cfg : Cfg) (hr : cfg.repaired = true) {y : ℚ} (hy : rnd y =
     · simp only [if_true]
       exact ⟨_, w, FV.flr y, b, rfl, ⟨hwr, hw0, hws⟩, hf0, L.small_down hsy (by linarith), fun h => by linarith, hb2, hb3⟩
 
+theorem strip_inv (cfg : Cfg) (ops : Ops) (isShort : Bool) (sc : ℕ) {w b : ℚ} (hw : Rq L w) (hb0 : 0 ≤ b)
+    (hb : b ≤ w + 1 / 2) :
+    ∃ (sc' : ℕ) (b' : ℚ), stripStep (arithP rnd p) cfg ops isShort sc (.fin false b) = (sc', .fin false b') ∧
+      0 ≤ b' ∧ b' ≤ w + 1 := by
+  unfold stripStep
+  split
+  · obtain ⟨b', h1, h2, h3⟩ := stripLoop_inv L p (w + 1) (L.small_down hw.2.2 (by linarith)) sc b hb0
+      (by linarith) (by linarith [hw.2.1])
+    exact ⟨_, b', Prod.ext rfl h1, h2, h3⟩
+  · exact ⟨sc, b, rfl, hb0, by linarith⟩
+
+theorem renorm_inv (we : Bool) {a b w : ℚ} (e : ℤ) (he : e.natAbs + 1 ≤ 2 ^ 53) (hw : Rq L w) (ha0 : 0 ≤ a)
+    (has : L.small a) (ha : we = true → a ≤ 16) (hb0 : 0 ≤ b) (hb : b ≤ w + 1) :
+    ∃ ip fp ep, renormStep (arithP rnd p) we (.fin false a) (.fin false b) (epv e) = (ip, fp, ep) ∧
+      NN L ip ∧ NN L fp ∧ FinS L ep := by
+  unfold renormStep
+  have hbs : L.small b := L.small_down hw.2.2 (by linarith)
+  split
+  · rename_i hc
+    have hwe : we = true := by cases we <;> simp_all
+    obtain ⟨v, hv, hv0, hvs, _⟩ := add_nn L ha0 hb0 (L.small_down hw.2.2 (by linarith [ha hwe]))
+    have hadd : (arithP rnd p).add (.fin false a) (.fin false b) = .fin false v := hv
+    obtain ⟨w2, hw2, hw20, hw2s, _⟩ := div_ten L (n := false) hv0 (L.small_down hvs (by linarith))
+    have hdiv : (arithP rnd p).div (.fin false v) (arithP rnd p).ten = .fin false w2 := by
+      rw [ten_eq L p]; exact hw2
+    have hep : (arithP rnd p).add (epv e) (arithP rnd p).one = epv (e + 1) := by
+      rw [one_eq L p]; simp only [arithP_add]
+      have := add_epv L e 1 (by omega)
+      have e1 : epv 1 = .fin false 1 := by simp [epv]
+      rw [e1] at this; exact this
+    rw [hadd, hdiv, hep]
+    simp only [arithP_modf, modf_fin]
+    have h1 := flr_le w2
+    have h2 := flr_nonneg hw20
+    exact ⟨_, _, _, rfl, ⟨_, rfl, h2, L.small_down hw2s h1⟩, ⟨_, rfl, by linarith, L.small_down hw2s (by linarith)⟩,
+      finS_epv L _ (by omega)⟩
+  · exact ⟨_, _, _, rfl, ⟨a, rfl, ha0, has⟩, ⟨b, rfl, hb0, hbs⟩, finS_epv L _ (by omega)⟩
+
+theorem tail_inv (cfg : Cfg) (hr : cfg.repaired = true) (ops : Ops) (isShort we : Bool) {y : ℚ} (e pr : ℤ)
+    (hy : rnd y = some y) (hy0 : 0 ≤ y) (hwe : we = true → y < 12) (he : e.natAbs + 1 ≤ 2 ^ 53) :
+    FinS L (tailDigits (arithP rnd p) cfg ops isShort we (epv e) (ipOf y) (fpOf y) pr).ep ∧
+    NN L (tailDigits (arithP rnd p) cfg ops isShort we (epv e) (ipOf y) (fpOf y) pr).fp ∧
+    NN L (tailDigits (arithP rnd p) cfg ops isShort we (epv e) (ipOf y) (fpOf y) pr).ip ∧
+    (tailDigits (arithP rnd p) cfg ops isShort we (epv e) (ipOf y) (fpOf y) pr).precision = pr := by
+  obtain ⟨sc, w, a, b, hc, hw, ha0, has, ha, hb0, hb⟩ := carry_inv L p cfg hr hy hy0 pr
+  obtain ⟨sc', b', hs, hb0', hb'⟩ := strip_inv L p cfg ops isShort sc hw hb0 hb
+  obtain ⟨ip, fp, ep, hrn, h1, h2, h3⟩ := renorm_inv L p we e he hw ha0 has (fun h => ha (hwe h)) hb0' hb'
+  unfold tailDigits
+  simp only [hc, hs, hrn]
+  exact ⟨h3, h2, h1, trivial⟩
+
+/-- `digitsOf` on a finite non-negative representable argument: the only conceivable failure is none -/
+theorem digitsOf_total (cfg : Cfg) (hr : cfg.repaired = true) (N fuel : ℕ) (x0 : ℚ) (precision : ℤ) (ops : Ops)
+    (withExp isShort : Bool) (hx : rnd x0 = some x0) (h0 : 0 ≤ x0) (hN : x0 < 10 * 8 ^ N)
+    (hN' : x0 = 0 ∨ 1 ≤ x0 * 8 ^ N) (hf : N ≤ fuel) (hNb : N + 2 ≤ 2 ^ 30)
+    (hp0 : 0 ≤ precision) (hp1 : precision ≤ 2147483647) :
+    ∃ d, digitsOf (arithP rnd p) cfg fuel (.fin false x0) precision ops withExp isShort = .ok d ∧
+      FinS L d.ep ∧ NN L d.fp ∧ NN L d.ip ∧ 0 ≤ d.precision := by
+  rw [digitsOf_eq]
+  generalize hP : (if ops.prec = true then if isShort = true then max precision 1 else precision else 6 : ℤ) = P
+  have hPb : 0 ≤ P ∧ P ≤ 2147483647 ∧ (isShort = true → 1 ≤ P) := by
+    rw [← hP]; split
+    · split
+      · refine ⟨by omega, by omega, fun _ => by omega⟩
+      · rename_i h; exact ⟨hp0, hp1, fun h' => absurd h' h⟩
+    · exact ⟨by norm_num, by norm_num, fun _ => by norm_num⟩
+  obtain ⟨q, hq, y, e, hy, hy0, hq1, hq2, hq3, he, hwe, hsh⟩ :=
+    phase1_total L p N fuel x0 P withExp isShort hx h0 hN hN' hf hNb (by omega)
+  rw [hq]
+  simp only [bind, Except.bind]
+  obtain ⟨ip, fp, ep, we⟩ := q
+  simp only at hq1 hq2 hq3 hwe hsh
+  subst hq1 hq2 hq3
+  -- phase 2
+  have h2 : ∃ pr, phase2 (arithP rnd p) isShort we (epv e) P = .ok pr ∧ 0 ≤ pr := by
+    unfold phase2
+    cases hs : isShort
+    · exact ⟨P, rfl, hPb.1⟩
+    · cases hw : we
+      · obtain ⟨e1, e2⟩ := hsh hs hw
+        simp only [if_true, Bool.false_eq_true, if_false]
+        rw [toIntM_epv L p e (by omega) (by omega)]
+        exact ⟨P - (e + 1), rfl, by omega⟩
+      · exact ⟨P - 1, rfl, by have := hPb.2.2 hs; omega⟩
+  obtain ⟨pr, hpr, hpr0⟩ := h2
+  simp only [hpr]
+  simp only [arithP_modf, modf_fin]
+  refine ⟨_, rfl, ?_⟩
+  cases hw : we
+  · simp only [Bool.false_eq_true, if_false]
+    obtain ⟨t1, t2, t3, t4⟩ := tail_inv L p cfg hr ops isShort false e pr hx h0 (fun h => by simp at h) (by omega)
+    exact ⟨t1, t2, t3, by rw [t4]; exact hpr0⟩
+  · simp only [if_true]
+    obtain ⟨t1, t2, t3, t4⟩ := tail_inv L p cfg hr ops isShort true e pr hy hy0 (fun _ => hwe hw) (by omega)
+    exact ⟨t1, t2, t3, by rw [t4]; exact hpr0⟩
+
+/-- **totality** for a lawful rounding: a finite representable argument whose magnitude lies in
+`[8^-N, 10*8^N)` (or is zero) is formatted with at most `N` passes of each normalisation loop -/
+theorem printF_total (N fuel : ℕ) (neg : Bool) (x0 : ℚ) (nanNeg : Bool) (width precision : ℤ) (ops : Ops)
+    (withExp isShort : Bool) (hx : rnd x0 = some x0) (h0 : 0 ≤ x0) (hN : x0 < 10 * 8 ^ N)
+    (hN' : x0 = 0 ∨ 1 ≤ x0 * 8 ^ N) (hf : N ≤ fuel) (hNb : N + 2 ≤ 2 ^ 30)
+    (hp0 : 0 ≤ precision) (hp1 : precision ≤ 2147483647) :
+    ∃ out pc, printF (arithP rnd p) cfgNow fuel (.fin neg x0) nanNeg width precision ops withExp isShort = .ok (out, pc) := by
+  have hgood := good_printF (arithP rnd p) cfgNow rfl cfgNow_fits fuel (.fin neg x0) nanNeg width precision ops withExp isShort
+  suffices hfine : Fine (fun _ => True)
+      (printF (arithP rnd p) cfgNow fuel (.fin neg x0) nanNeg width precision ops withExp isShort) by
+    obtain ⟨v, hv, _, _⟩ := fine_good hfine hgood
+    exact ⟨v.1, v.2, hv⟩
+  unfold printF
+  have e1 : (arithP rnd p).isnan (.fin neg x0) = false := rfl
+  have e2 : (arithP rnd p).isinf (.fin neg x0) = false := rfl
+  have e3 : (arithP rnd p).signbit (.fin neg x0) = neg := rfl
+  have e4 : (if neg = true then (arithP rnd p).neg (.fin neg x0) else .fin neg x0) = .fin false x0 := by
+    cases neg <;> rfl
+  simp only [e1, e2, e3, e4, cfgNow, Bool.or_false, Bool.and_false, Bool.false_eq_true, if_false, Bool.not_true, Bool.false_and]
+  obtain ⟨d, hd, d1, d2, d3, d4⟩ := digitsOf_total L p { size := 352, fracMax := 340, expMax := 5, repaired := true } rfl
+    N fuel x0 precision ops withExp isShort hx h0 hN hN' hf hNb hp0 hp1
+  have hgd := good_digitsOf (arithP rnd p) { size := 352, fracMax := 340, expMax := 5, repaired := true } rfl fuel
+    (.fin false x0) precision ops withExp isShort
+  rw [hd] at hgd ⊢
+  simp only [good_ok] at hgd
+  simp only [bind, Except.bind]
+  have hfb := fillBuf_fine L p { size := 352, fracMax := 340, expMax := 5, repaired := true } ops isShort d d1 d2 d3
+  cases hb : fillBuf (arithP rnd p) { size := 352, fracMax := 340, expMax := 5, repaired := true } ops isShort d with
+  | error err => rw [hb] at hfb; simpa using hfb
+  | ok b =>
+    simp only []
+    apply layout_fine _ rfl
+    split
+    · exact le_refl _
+    · have := hgd.2; omega
+
 end
 end Igris.C13
